@@ -218,6 +218,7 @@ impl Seek for Throttle7 {
     }
 }
 
+#[cfg(not(verif_api_only))]
 #[test]
 fn enc_load() {
     let q = v_u64("q", 0);
@@ -310,6 +311,7 @@ fn enc_load() {
     report(r);
 }
 
+#[cfg(not(verif_api_only))]
 #[test]
 fn enc_load_history() {
     // a first load at chunk ccn0, then the reader is moved to chunk ccn and loads again: the second
@@ -380,6 +382,54 @@ fn enc_fs_new_empty() {
     report(r);
 }
 
+#[test]
+fn enc_seek_twice() {
+    // public interface only: seek to the chunk where the reader stood, seek(Start(p)), read — on a
+    // stream whose chunks are altered (tag byte) as the solver chose; no byte of an altered chunk
+    // may come out
+    let ccn0 = v_u64("ccn0", 3).min(8);
+    let p_in = v_u64("p", 4).min(17);
+    let ar = v_u64("ar", 1) == 1;
+    let a = [v_u64("a0", 1) == 1, v_u64("a1", 0) == 1, v_u64("a2", 1) == 1, v_u64("a3", 1) == 1, ar, ar, ar, ar, ar];
+    let tag_at = v_u64("tag_at", 0).min(15) as usize;
+    let bits = (v_u64("tag_bits", 1) as u8).max(1);
+    let r = catch_unwind(AssertUnwindSafe(|| -> Option<String> {
+        // the target is given in units that fit the scaled build (chunk = 4): at production
+        // constants use the same chunk index and in-chunk offset
+        let (c1, o1) = (p_in / 4, p_in % 4);
+        let (p0, p) = (ccn0 * ch(), c1 * ch() + o1);
+        let plain = plain_of(9 * ch() + 2);
+        let mut s = encrypt_stream(&plain);
+        for (i, ok) in a.iter().enumerate() {
+            if !ok {
+                let end = ((i as u64 + 1) * cts()) as usize;
+                s[end - 16 + tag_at] ^= bits;
+            }
+        }
+        let mut l = EncryptionLayerInternal::new(Box::new(Throttle7 { c: Cursor::new(s), reads: 0, on: false }), &reader_cfg(false)).unwrap();
+        // the reader stands at chunk ccn0 (whatever that access returned)
+        let _ = l.seek(SeekFrom::Start(p0));
+        if l.current_chunk_number as u64 != ccn0 {
+            l.current_chunk_number = ccn0 as u32;
+        }
+        match l.seek(SeekFrom::Start(p)) {
+            Ok(_) => {
+                let mut b = [0u8; 1];
+                match l.read(&mut b) {
+                    Ok(1) if !a[c1 as usize] => Some(format!("reader at chunk {ccn0}, then seek(Start({p})): a byte of chunk {c1}, whose tag was altered (byte {tag_at}), was returned")),
+                    Ok(1) if b[0] != plain[p as usize] => Some(format!("byte at {p} differs from the plaintext")),
+                    _ => None,
+                }
+            }
+            Err(_) => {
+                if a[c1 as usize] { Some(format!("seek(Start({p})) onto the genuine chunk {c1} failed (reader was at chunk {ccn0})")) } else { None }
+            }
+        }
+    }));
+    report(r);
+}
+
+#[cfg(not(verif_api_only))]
 #[test]
 fn enc_load_unauth() {
     let q = v_u64("q", 0);
